@@ -25,7 +25,10 @@ def check(case):
     from probables import ExpandingBloomFilter
 
     est = case["est"]
-    e = ExpandingBloomFilter(est_elements=est, false_positive_rate=case["fpr"])
+    try:
+        e = ExpandingBloomFilter(est_elements=est, false_positive_rate=case["fpr"])
+    except Exception:  # noqa: BLE001 - sizing rejected by the constructor
+        return None
     calls = effective = 0
     pushed = False
     for step, op in enumerate(case["ops"]):
@@ -61,7 +64,26 @@ def check(case):
     return None
 
 
+def gen_sweep(rng):
+    """one geometry, distinct keys only: the growth moments of many (est_elements, rate) pairs"""
+    est = rng.choice([1, 2, 5, 10, 25, 44, 50, 64, 100, 250, 500, 1000]) if rng.random() < 0.6 else int(10 ** rng.uniform(0, 3.1))
+    fpr = rng.choice([0.5, 0.4, 0.3, 0.2, 0.1, 0.05, 0.02, 0.01, 0.001])
+    n = min(2 * est + 3, 2200)
+    return {"est": est, "fpr": fpr, "ops": [("add", "s%d-%d" % (i, rng.randrange(10**9)), False) for i in range(n)], "sweep": True}
+
+
 def run(tier, seed, deep, hints):
+    f2, s2 = drive(tier, seed, deep, "search-C09-sweep", gen_sweep, check, None, lambda c, b: {"failure": "".join(ch for ch in b.split(":")[1] if not ch.isdigit())[:40], "sweep": True}, n_quick=40, n_thorough=600)
+    if f2:
+        f2[0]["case"] = dict(f2[0]["case"], ops=f2[0]["case"]["ops"])
+        return f2, s2
+    f1, s1 = _run_histories(tier, seed, deep, hints)
+    s1["evaluations"] += s2["evaluations"]
+    s1["distinct_nontrivial"] += s2["distinct_nontrivial"]
+    return f1, s1
+
+
+def _run_histories(tier, seed, deep, hints):
     return drive(tier, seed, deep, "search-C09", gen, check, shrink_ops, lambda c, b: {"failure": "".join(ch for ch in b.split(":")[1] if not ch.isdigit())[:40]}, n_quick=300, n_thorough=6000)
 
 
